@@ -2,6 +2,7 @@
 #include "rt_common.h"
 
 struct BaseCborOutputWriter;
+_Bool nondet_bool(void);
 
 unsigned long g_sink_len;   /* bytes accepted by the sink so far */
 unsigned long g_W;          /* watched logical output index (arbitrary, fixed per run) */
@@ -33,6 +34,9 @@ unsigned char g_sb0;
 void BaseCborOutputWriter__write(struct BaseCborOutputWriter *s, char *p, unsigned long n)
 {
   if (g_exc) return;
+#ifdef SINK_MAY_FAIL
+  if (nondet_bool()) { g_sink_fail = 1; g_exc = EXC_CborOutputException; return; }   /* the output rejects the chunk */
+#endif
   __CPROVER_assert(__CPROVER_r_ok(p, n), "sink.write: source range readable");
   if (g_W >= g_sink_len && g_W - g_sink_len < n) g_wval = (unsigned char)p[g_W - g_sink_len];
   g_sink_len += n;
